@@ -103,6 +103,7 @@ func c20Pairing(p *an.Prog, r *an.R) {
 }
 
 func c20Typestate(p *an.Prog, r *an.R) {
+	acqHelpers := c20AcquireHelpers(p)
 	semaAcq := p.Func("search", "(*sema).Acquire")
 	semaRel := p.Func("search", "(*sema).Release")
 	wAcq := p.ExtFunc("golang.org/x/sync/semaphore", "Weighted.Acquire")
@@ -272,7 +273,7 @@ func c20Typestate(p *an.Prog, r *an.R) {
 					if (be.Op == token.NEQ) == truth {
 						return false // this edge has err != nil
 					}
-					// eo must be defined by robj.Acquire(...)
+					// eo must be defined by robj.Acquire(...), or together with robj by an acquire helper
 					def := false
 					ast.Inspect(lit.Body, func(m ast.Node) bool {
 						as, isA := m.(*ast.AssignStmt)
@@ -287,6 +288,9 @@ func c20Typestate(p *an.Prog, r *an.R) {
 						}
 						if !defines {
 							return true
+						}
+						if hc, ok := ast.Unparen(as.Rhs[0]).(*ast.CallExpr); ok && len(as.Lhs) == 2 && acqHelpers[an.Callee(info, hc)] && isIdentOf(info, as.Lhs[0], robj) {
+							def = true
 						}
 						for _, c := range an.CallsTo(info, as.Rhs[0], false, semaAcq) {
 							if se, ok := ast.Unparen(c.Fun).(*ast.SelectorExpr); ok && an.UsesObj(info, se.X, robj) {
@@ -435,7 +439,11 @@ func c20Sema(p *an.Prog, r *an.R) {
 			r.Check(ok, "C20.R4", "search.(*sema).Acquire/returns-nil-only-on-success", rs.Pos(), "`return nil` only after the semaphore was acquired", "sema.Acquire can return nil without holding the semaphore: more than capacity searches run")
 		}
 	}
-	// error returns of the Acquire functions come from the semaphore call
+	// error returns of the Acquire functions come from the semaphore call (or from an acquire helper, see c20AcquireHelpers)
+	acqFns := []*types.Func{wAcq, semaAcq}
+	for h := range c20AcquireHelpers(p) {
+		acqFns = append(acqFns, h)
+	}
 	for _, name := range []string{"(*sema).Acquire", "(*multiScheduler).Acquire", "(*semaphoreScheduler).acquire"} {
 		ff := p.Func("search", name)
 		dd := p.Decl(ff)
@@ -475,7 +483,7 @@ func c20Sema(p *an.Prog, r *an.R) {
 							return true
 						}
 						for _, lh := range as.Lhs {
-							if lid, ok := lh.(*ast.Ident); ok && inf.ObjectOf(lid) == eo && len(an.CallsTo(inf, as, false, wAcq, semaAcq)) > 0 {
+							if lid, ok := lh.(*ast.Ident); ok && inf.ObjectOf(lid) == eo && len(an.CallsTo(inf, as, false, acqFns...)) > 0 {
 								ok2 = true
 							}
 						}
@@ -487,4 +495,109 @@ func c20Sema(p *an.Prog, r *an.R) {
 			})
 		}
 	}
+}
+
+// c20AcquireHelpers: functions of package search of the form
+//
+//	func (..) h(ctx) (*sema, error) { x := ...; if err := x.Acquire(ctx); err != nil { return nil, err }; return x, nil }
+//
+// i.e. every `return X, nil` is reached only on the err == nil edge of X.Acquire(..) and every other
+// return hands back nil and the error of that Acquire. A value obtained from such a helper (under
+// err == nil) is a successfully acquired semaphore.
+func c20AcquireHelpers(p *an.Prog) map[*types.Func]bool {
+	out := map[*types.Func]bool{}
+	sp := p.Pkg("search")
+	semaAcq := p.Func("search", "(*sema).Acquire")
+	if sp == nil || semaAcq == nil {
+		return out
+	}
+	info := sp.TypesInfo
+	p.AllDecls(func(fn *types.Func, d *an.DeclInfo) {
+		if d.Pkg != sp || d.Decl.Body == nil || fn == semaAcq {
+			return
+		}
+		sig := fn.Type().(*types.Signature)
+		if sig.Results().Len() != 2 || !types.Identical(sig.Results().At(1).Type(), errorType) {
+			return
+		}
+		if len(an.CallsTo(info, d.Decl.Body, false, semaAcq)) == 0 {
+			return
+		}
+		g := an.NewG(info, d.Decl.Body)
+		good, rets := true, 0
+		for _, l := range g.Locs(func(n ast.Node) bool { _, ok := n.(*ast.ReturnStmt); return ok }) {
+			rs := g.Node(l).(*ast.ReturnStmt)
+			if len(rs.Results) != 2 {
+				good = false
+				continue
+			}
+			rets++
+			if isNilExpr(info, rs.Results[1]) {
+				rid, ok := ast.Unparen(rs.Results[0]).(*ast.Ident)
+				if !ok {
+					good = false
+					continue
+				}
+				robj := info.ObjectOf(rid)
+				okAcq := g.GuardedBy(l, func(cond ast.Expr, truth bool) bool {
+					be, isB := ast.Unparen(cond).(*ast.BinaryExpr)
+					if !isB || !isNilExpr(info, be.Y) {
+						return false
+					}
+					id, isI := ast.Unparen(be.X).(*ast.Ident)
+					if !isI || (be.Op == token.NEQ) == truth {
+						return false
+					}
+					eo := info.ObjectOf(id)
+					def := false
+					ast.Inspect(d.Decl.Body, func(m ast.Node) bool {
+						as, isA := m.(*ast.AssignStmt)
+						if !isA || len(as.Rhs) != 1 {
+							return true
+						}
+						for _, lh := range as.Lhs {
+							if lid, ok := lh.(*ast.Ident); ok && info.ObjectOf(lid) == eo {
+								for _, c := range an.CallsTo(info, as.Rhs[0], false, semaAcq) {
+									if se, ok := ast.Unparen(c.Fun).(*ast.SelectorExpr); ok && an.UsesObj(info, se.X, robj) {
+										def = true
+									}
+								}
+							}
+						}
+						return true
+					})
+					return def
+				}, nil)
+				if !okAcq {
+					good = false
+				}
+			} else {
+				if !isNilExpr(info, rs.Results[0]) {
+					good = false
+				}
+				eid, ok := ast.Unparen(rs.Results[1]).(*ast.Ident)
+				fromAcq := false
+				if ok {
+					eo := info.ObjectOf(eid)
+					ast.Inspect(d.Decl.Body, func(m ast.Node) bool {
+						if as, isA := m.(*ast.AssignStmt); isA {
+							for _, lh := range as.Lhs {
+								if lid, ok := lh.(*ast.Ident); ok && info.ObjectOf(lid) == eo && len(an.CallsTo(info, as, false, semaAcq)) > 0 {
+									fromAcq = true
+								}
+							}
+						}
+						return true
+					})
+				}
+				if !fromAcq {
+					good = false
+				}
+			}
+		}
+		if good && rets > 0 {
+			out[fn] = true
+		}
+	})
+	return out
 }
